@@ -106,7 +106,11 @@ pub fn run(seed: u64, ntraces: usize) {
                                      ("cmd", 0, 2, 0), ("exec", 7, 1, 0), ("exec", 0, 1, 0), ("cmd", 0, 0, 0), ("jump", 0, 0, 0), ("exec", 7, 0, 0), ("exec", 0, 0, 0)]; }
         // an executed command, then somebody calls the gateway's validateMessage for it directly, the public batch is submitted again and the command replayed: refused
         if t % 8 == 7 { queue = vec![("cmd", 1, 2, 0), ("exec", 1, 1, 0), ("deliver_ok", 0, 0, 0), ("callback", 0, 0, 0), ("stray", 0, 0, 0), ("exec", 1, 1, 0)]; }
-        for _ in 0..nops {
+        // ... then (same traces): proposal 0 is dispatched; WHILE IT IS IN FLIGHT the governance chain schedules it again with a far eta (refused: execution in progress, the approval stays),
+        // the call fails and the callback restores the old eta, the proposal is dispatched again; and on the operator path: approved, dispatched, approved again in flight, the call fails, dispatched again
+        if t % 8 == 7 { queue.extend(vec![("cmd", 0, 0, 0), ("jump", 0, 0, 0), ("exec", 0, 0, 0), ("cmd", 0, 0, 4_000_000_000), ("deliver_fail", 0, 0, 0), ("callback", 0, 0, 0), ("exec", 0, 0, 0),
+                                          ("cmd", 2, 2, 0), ("exec", 2, 1, 0), ("cmd", 2, 2, 0), ("deliver_fail", 0, 0, 0), ("callback", 0, 0, 0), ("exec", 2, 1, 0)]); }
+        for _ in 0..nops.max(queue.len() + 2) {
             // time: sometimes jump to (just before / exactly) a scheduled eta
             let known: Vec<u64> = etas.iter().filter_map(|e| *e).filter(|e| *e >= now && *e < (1u64 << 40)).collect();      // never jump to a parked proposal's eta (2^63, u64::MAX)
             now = match r.below(4) { 0 if !known.is_empty() => (*r.pick(&known)).max(now), 1 if !known.is_empty() => (*r.pick(&known)).saturating_sub(1).max(now), 2 => now, _ => now + r.below(60) };
